@@ -115,6 +115,7 @@ fn run(ctx: &mut Ctx) {
     let body_arena = Arena::new(20);
     bodies(ctx, &body_arena);
     addresses(ctx);
+    special_sizes(ctx);
     for total in 0..=max_total {
         let span = round8(total).max(8);
         let p = unsafe { arena.end().sub(span) };
@@ -281,6 +282,44 @@ fn addresses(ctx: &mut Ctx) {
                             observe(ctx, p, load_verdict(&r, total), total);
                         }
                     }
+                });
+            }
+        }
+    }
+}
+
+/// Boundary values and the specification's magic numbers as the total-size word (with the reserved word over the
+/// architecture values of the header format too): values a special case would be keyed on.
+fn special_sizes(ctx: &mut Ctx) {
+    let arena = Arena::new_sparse((1usize << 32) / arena::PAGE + 1);
+    ctx.bound("special_sizes", "total-size word over every EDGE32 value above 1 MiB (incl. 0xE85250D6 and 0x36D76289) and each rounded down to a multiple of 8, x reserved word {0, 4, 8, 0xFFFFFFFF} x valid / invalid end tag; region physically present in a sparse 4 GiB arena");
+    let mut totals: Vec<usize> = vec![];
+    for &e in EDGE32.iter() {
+        if e as usize > (1 << 20) {
+            for t in [e as usize, e as usize & !7] {
+                if !totals.contains(&t) && t >= 16 {
+                    totals.push(t);
+                }
+            }
+        }
+    }
+    for total in totals {
+        for res in [0u32, 4, 8, 0xFFFF_FFFF] {
+            for valid_end in [true, false] {
+                let describe = || J::obj().set("part", "special_sizes").set("total_size_word", total).set("reserved_word", res).set("valid_end_tag", valid_end);
+                ctx.leaf(describe, |ctx| {
+                    let span = round8(total);
+                    let p = unsafe { arena.end().sub(span) };
+                    let hdr: &mut [u8] = unsafe { std::slice::from_raw_parts_mut(p, 8) };
+                    wr32(hdr, 0, total as u32);
+                    wr32(hdr, 4, res);
+                    let tail: &mut [u8] = unsafe { std::slice::from_raw_parts_mut(p.add((total & !7) - 8), 8) };
+                    wr32(tail, 0, 0);
+                    wr32(tail, 4, if valid_end { 8 } else { 9 });
+                    let expected = if total % 8 != 0 { V::Padding } else if valid_end { V::Ok } else { V::NoEnd };
+                    observe(ctx, p, expected, total);
+                    ctx.state_direct();
+                    ctx.nontrivial();
                 });
             }
         }
